@@ -7,6 +7,9 @@
                (NA = bound absent)
      "locparts" src.loc[a:b].partitions[...]: the first / the last / all but the
                first partition of the slice (p = "first" | "last" | "tail")
+     "loclist" src.loc[[l1, l2, ...]] for every list of 1..maxn labels that occur in
+               the source, in EVERY order and with repetitions (ascending,
+               descending, shuffled; labels of one / several / not all partitions)
      "partsrep" src.partitions[lo:].repartition(npartitions = n) with n at most the
                number of selected partitions (growing the count is family "n")
      "filter"  src[predicate on the rid column]: keeps even / odd / no / all rows
@@ -50,6 +53,8 @@ TChoose ==
                   case = [fam |-> f, idx |-> s, layout |-> l, sdivs |-> sd, arg |-> [a |-> a, b |-> b, p |-> "all"]]
              [] f = "locparts" -> \E a \in Bnd(f) : \E b \in Bnd(f) : \E p \in {"first", "last", "tail"} :
                   case = [fam |-> f, idx |-> s, layout |-> l, sdivs |-> sd, arg |-> [a |-> a, b |-> b, p |-> p]]
+             [] f = "loclist" -> \E ls \in UNION { AllSeqs(n, SeqSet(s)) : n \in 1..Bounds[f].maxn } :
+                  case = [fam |-> f, idx |-> s, layout |-> l, sdivs |-> sd, arg |-> [labels |-> ls]]
              [] f = "partsrep" -> \E lo \in 0..(Len(l) - 1) : \E n \in 1..(Len(l) - lo) :
                   case = [fam |-> f, idx |-> s, layout |-> l, sdivs |-> sd, arg |-> [lo |-> lo, n |-> n]]
              [] f = "filter" -> \E k \in {"even", "odd", "none", "all"} :
